@@ -8,7 +8,7 @@ from .tlc import MachineryError, printed_values, run_tlc
 
 
 def validate(run, module: str, cfg: str, traces: list[list[dict]], extra: dict | None = None,
-             timeout: int = 1800, chunk: int = 4000) -> list[tuple[int, int, str]]:
+             timeout: int = 1800, chunk: int = 4000, zero_based: bool = False) -> list[tuple[int, int, str]]:
     """Let TLC check all traces; return list of (trace index (0-based), record index (0-based), failing clause).
 
     A trace is a list of records; record 0 is the initial state. Raises MachineryError if TLC did not
@@ -27,6 +27,8 @@ def validate(run, module: str, cfg: str, traces: list[list[dict]], extra: dict |
         total = sum(len(t) for t in part)
         if not res.ok:
             raise MachineryError(f'trace validation {module}/{cfg} failed:\n{res.error_text}')
+        if zero_based:   # trace specs whose initial state consumes no record: one extra state per trace
+            total += len(part)
         if res.distinct != total:
             raise MachineryError(f'trace validation {module}: consumed {res.distinct} of {total} records')
         run.tlc.append(res)
